@@ -278,10 +278,22 @@ class World:
         self.polluted = set()
 
     # -- construction helpers
+    _NCONS = [0]
+
     @staticmethod
     def _construct(t, s):
+        World._NCONS[0] += 1
         with warnings.catch_warnings():
             warnings.simplefilter("ignore")
+            if World._NCONS[0] % 3 == 0:
+                # every third model is built around a user's RBM (the documented module= constructor); it is the same
+                # abstract model: the requested sizes, fresh parameters, networks of its own
+                from qucumber.rbm import BinaryRBM, PurificationRBM
+                if t == "positive":
+                    return PositiveWaveFunction(s[0], module=BinaryRBM(s[0], s[1], gpu=False), gpu=False)
+                if t == "complex":
+                    return ComplexWaveFunction(s[0], module=BinaryRBM(s[0], s[1], gpu=False), gpu=False)
+                return DensityMatrix(s[0], module=PurificationRBM(s[0], s[1], s[2], gpu=False), gpu=False)
             if t == "positive":
                 return PositiveWaveFunction(s[0], s[1], gpu=False)
             if t == "complex":
